@@ -32,6 +32,12 @@ Definition written_fields (tbl : list (string * (bool * list string))) (ty : str
 
 Definition mem_s (x : string) (l : list string) : bool := existsb (String.eqb x) l.
 
+(* a field that holds a wrapper over what another field holds (Gen_Access.gen_aliases: a MultiWriter over the session's buffer or
+   file): what is written through the wrapper is written to the wrapped object - the wrapped field counts as written wherever the
+   wrapper is (one step: wrappers of wrappers do not occur; the table says so if that changes) *)
+Definition with_aliases (al : list (string * (string * string))) (ty : string) (w : list string) : list string :=
+  w ++ List.concat (map (fun a => if String.eqb (fst a) ty && mem_s (fst (snd a)) w then [snd (snd a)] else []) al).
+
 (* accesses that are deliberately lock-free, with the reason *)
 (* methods that run before the structure is visible to another goroutine, or that every caller runs with the mutex held *)
 Definition called_locked : list string := [
@@ -46,35 +52,43 @@ Definition lockfree_ok : list (string * string) := [
   ("Server", "store");
   ("Server", "httpServer")].
 
-Record asim := mkA { a_held : bool; a_stack : list (bool * bool) (* (is goroutine / deferred, held outside) *); a_bad : list string }.
+Record asim := mkA { a_held : bool;
+                     a_du : bool                          (* a deferred unlock of the receiver's mutex is registered in this frame *);
+                     a_stack : list (bool * (bool * bool)) (* (is goroutine / deferred / leaving branch, (held, deferred unlock) outside) *);
+                     a_bad : list string }.
 
+(* Deferred calls run last-in-first-out when the function returns.  A deferred closure registered AFTER the deferred unlock runs
+   before it - with the mutex, if the method holds it at its returns; one registered BEFORE the deferred unlock (or in a method
+   that unlocks explicitly) runs after the mutex was released: its accesses are judged as made without the mutex. *)
 Definition astep (ty : string) (written : list string) (s : asim) (op : string) : asim :=
-  if String.eqb op "go{" then mkA false ((true, a_held s) :: a_stack s) (a_bad s)
-  else if String.eqb op "defer func{" then mkA true ((true, a_held s) :: a_stack s) (a_bad s)   (* runs at return: judged as held iff a deferred unlock is pending - approximated as held *)
-  else if String.eqb op "func{" then mkA (a_held s) ((false, a_held s) :: a_stack s) (a_bad s)
-  else if String.eqb op "ifret{" then mkA (a_held s) ((true, a_held s) :: a_stack s) (a_bad s)     (* a branch that leaves the function: restored at its end *)
+  if String.eqb op "go{" then mkA false false ((true, (a_held s, a_du s)) :: a_stack s) (a_bad s)
+  else if String.eqb op "defer func{" then mkA (a_du s) false ((true, (a_held s, a_du s)) :: a_stack s) (a_bad s)
+  else if String.eqb op "func{" then mkA (a_held s) (a_du s) ((false, (a_held s, a_du s)) :: a_stack s) (a_bad s)
+  else if String.eqb op "ifret{" then mkA (a_held s) (a_du s) ((true, (a_held s, a_du s)) :: a_stack s) (a_bad s)     (* a branch that leaves the function: restored at its end *)
   else if String.eqb op "}" then
     match a_stack s with
-    | (true, h) :: r => mkA h r (a_bad s)
-    | (false, _) :: r => mkA (a_held s) r (a_bad s)
-    | [] => mkA (a_held s) [] (a_bad s ++ ["unbalanced"])
+    | (true, (h, d)) :: r => mkA h d r (a_bad s)
+    | (false, (_, d)) :: r => mkA (a_held s) d r (a_bad s)
+    | [] => mkA (a_held s) (a_du s) [] (a_bad s ++ ["unbalanced"])
     end
-  else if String.eqb op "lock" then mkA true (a_stack s) (a_bad s)
-  else if String.eqb op "unlock" then mkA false (a_stack s) (a_bad s)
-  else if String.eqb op "defer unlock" then s
+  else if String.eqb op "lock" then mkA true (a_du s) (a_stack s) (a_bad s)
+  else if String.eqb op "unlock" then mkA false (a_du s) (a_stack s) (a_bad s)
+  else if String.eqb op "defer unlock" then mkA (a_held s) true (a_stack s) (a_bad s)
   else if (is_read op || is_write op) && mem_s (field_of op) written
           && negb (a_held s) && negb (existsb (fun a => String.eqb (fst a) ty && String.eqb (snd a) (field_of op)) lockfree_ok)
-  then mkA (a_held s) (a_stack s) (a_bad s ++ [op])
+  then mkA (a_held s) (a_du s) (a_stack s) (a_bad s ++ [op])
   else s.
 
 (* a method with a `locked` parameter is called both ways (the exported wrappers pass false): it gets no credit for its
    caller's lock; its own conditional `if !locked { mu.Lock() }` is the lock statement the simulation sees *)
-Definition asim_fn (tbl : list (string * (bool * list string))) (e : string * (bool * list string)) : list string :=
+Definition asim_fn (al : list (string * (string * string))) (tbl : list (string * (bool * list string))) (e : string * (bool * list string)) : list string :=
   let ty := type_of_key (fst e) in
-  let written := written_fields tbl ty in
+  let written := with_aliases al ty (written_fields tbl ty) in
   let ops := snd (snd e) in
   if mem_s (fst e) called_locked then [] else
-  a_bad (fold_left (astep ty written) ops (mkA false [] [])).
+  a_bad (fold_left (astep ty written) ops (mkA false false [] [])).
 
-Definition access_violations (tbl : list (string * (bool * list string))) : list (string * string) :=
-  List.concat (map (fun e => map (fun b => (fst e, b)) (asim_fn tbl e)) tbl).
+Definition access_violations_al (al : list (string * (string * string))) (tbl : list (string * (bool * list string))) : list (string * string) :=
+  List.concat (map (fun e => map (fun b => (fst e, b)) (asim_fn al tbl e)) tbl).
+
+Definition access_violations (tbl : list (string * (bool * list string))) : list (string * string) := access_violations_al [] tbl.
